@@ -111,19 +111,21 @@ Definition walk_junct (k : bool) (args : list expr) : expr :=
   end.
 
 (* ---------------------------------------------------------------- walk_iff / walk_implies *)
+Definition as_boolc (e : expr) : option bool := match e with EBool b => Some b | _ => None end.
+
 Definition walk_iff (sl sr : expr) : expr :=
-  match sl, sr with
-  | EBool l, EBool r => EBool (Bool.eqb l r)
-  | EBool l, _ => if l then sr else mkNot sr
-  | _, EBool r => if r then sl else mkNot sl
-  | _, _ => if expr_eqb sl sr then EBool true else EIff sl sr
+  match as_boolc sl, as_boolc sr with
+  | Some l, Some r => EBool (Bool.eqb l r)
+  | Some l, None => if l then sr else mkNot sr
+  | None, Some r => if r then sl else mkNot sl
+  | None, None => if expr_eqb sl sr then EBool true else EIff sl sr
   end.
 
 Definition walk_implies (sl sr : expr) : expr :=
-  match sl, sr with
-  | EBool l, _ => if l then sr else EBool true
-  | _, EBool r => if r then EBool true else mkNot sl
-  | _, _ => if expr_eqb sl sr then EBool true else EImplies sl sr
+  match as_boolc sl, as_boolc sr with
+  | Some l, _ => if l then sr else EBool true
+  | None, Some r => if r then EBool true else mkNot sl
+  | None, None => if expr_eqb sl sr then EBool true else EImplies sl sr
   end.
 
 (* ---------------------------------------------------------------- trajectory operators *)
@@ -157,11 +159,15 @@ Definition user_type_of (G : cfg) (e : expr) : option N :=
 Definition compat (G : cfg) (tl tr : N) : bool := (tl =? tr)%N || memN tl (anc G tr).
 
 (* payload equality of two constants (numbers by value, objects by identity) *)
+Definition as_objc (e : expr) : option N := match e with EObj o => Some o | _ => None end.
 Definition const_eqb (a b : expr) : bool :=
-  match a, b with
-  | EBool x, EBool y => Bool.eqb x y
-  | EObj x, EObj y => (x =? y)%N
-  | _, _ => match num_of a, num_of b with Some x, Some y => qc_eqb (nval x) (nval y) | _, _ => false end
+  match as_boolc a, as_boolc b with
+  | Some x, Some y => Bool.eqb x y
+  | _, _ =>
+      match as_objc a, as_objc b with
+      | Some x, Some y => (x =? y)%N
+      | _, _ => match num_of a, num_of b with Some x, Some y => qc_eqb (nval x) (nval y) | _, _ => false end
+      end
   end.
 
 Definition walk_equals (G : cfg) (sl sr : expr) : expr :=
@@ -409,10 +415,13 @@ Definition simplify (G : cfg) (e : expr) : option expr :=
 
 (* ---------------------------------------------------------------- where the Python code raises
    walk_div on a constant zero divisor (ZeroDivisionError from %, or the assert / Fraction(…, 0)). *)
-Definition div_raises (l r : expr) : bool :=
-  match num_of l, num_of r with Some _, Some b => num_is0 b | _, _ => false end.
+(* strict = true: both operands are constants (the code surely raises); strict = false: the divisor is the constant 0
+   (when the dividend is not a constant the code builds Div(l, 0), and the TYPE CHECKER raises ZeroDivisionError if the
+   dividend's type has a bound — types of numeric expressions are outside this model) *)
+Definition div0 (strict : bool) (l r : expr) : bool :=
+  match num_of r with Some b => num_is0 b && (negb strict || is_num l) | None => false end.
 
-Fixpoint raises (G : cfg) (n : nat) : expr -> bool :=
+Fixpoint raises (G : cfg) (strict : bool) (n : nat) : expr -> bool :=
   fix go (e : expr) : bool :=
     match e with
     | EBool _ | EInt _ | EReal _ | EObj _ | EParam _ | EVar _ _ => false
@@ -420,7 +429,7 @@ Fixpoint raises (G : cfg) (n : nat) : expr -> bool :=
     | ENot a | EAlways a | ESometime a | EAtMostOnce a | EForall _ a => go a
     | EImplies a b | EIff a b | EMinus a b | ELe a b | ELt a b | EEquals a b
     | ESometimeBefore a b | ESometimeAfter a b => go a || go b
-    | EDiv a b => go a || go b || div_raises (simp G n a) (simp G n b)
+    | EDiv a b => go a || go b || div0 strict (simp G n a) (simp G n b)
     | EExists vs a =>
         go a ||
         (let body := simp G n a in
@@ -430,7 +439,7 @@ Fixpoint raises (G : cfg) (n : nat) : expr -> bool :=
          | Some _ =>
              match n with
              | O => false
-             | S n' => let '(vs1, b1) := elim_loop G (length vs0) vs0 body in raises G n' (mkExists vs1 b1)
+             | S n' => let '(vs1, b1) := elim_loop G (length vs0) vs0 body in raises G strict n' (mkExists vs1 b1)
              end
          end)
     end.
